@@ -576,6 +576,8 @@ func c15Doc(u *U, doc string) {
 }
 
 func runC15(c *Ctx) {
+	// history clause first, so that each worker process meets it in its initial state
+	histFamily(c, "json encoder and decoder calls", jsonHistoryOps)
 	// (a)
 	for _, t := range codecTypes(c.Thorough) {
 		t := t
